@@ -8,14 +8,14 @@ PROP = {
     "assumptions": WORLD_ASSUME + [
         "rename(2) of a directory is atomic and moves the whole subtree (Fs.rename); RemoveAll removes exactly the entries at or below its argument",
         "the automatic export links (<exportdirs>/<packages|generated>/<name>) are not at or below the layer directory or <name>~removed (stated as an explicit per-path hypothesis in the theorems; the scenarios keep exportdirs outside layerdirs)",
-        "remove_preserves_partial is restricted to probed state != 'not yet populated'; the complementary region is the recorded finding remove-deletes-unpopulated-layer-with-data (witness theorem remove_deletes_data_witness)",
+        "filepath.Walk inside holdsOnlyOwnFiles sees exactly the entries of the tree model at or below the layer directory (lstat, no error other than absence)",
     ],
-    "rule": SCEN_RULE + " C09 oracle: for every plain (no pretend/fault/crash) remove step, an existing <name>~removed subtree must be byte-identical afterwards; for every successful remove without -files, every non-directory entry at or below the layer directory before the step must exist with the same node (content or link target) at the same path or at the same relative path below <name>~removed, unless the directory held nothing beyond what add created; a loss in a layer whose probed state is 'not yet populated' is classified as the known finding, every other loss is a violation.",
+    "rule": SCEN_RULE + " C09 oracle: for every plain (no pretend/fault/crash) remove step, an existing <name>~removed subtree must be byte-identical afterwards; for every successful remove without -files, every non-directory entry at or below the layer directory before the step must exist with the same node (content or link target) at the same path or at the same relative path below <name>~removed, except the two files add itself creates (layerconfig, the base layer's root/.bashrc); every other loss is a violation (the former known finding remove-deletes-unpopulated-layer-with-data is repaired by /repo 5e260eb and no longer classified).",
 }
 
 META = {
-    "text": "Lean theorems over the file-system model and the command model: rename_preserves / rename_preserves_others (os.Rename of a tree moves every entry at or below the old name to the same relative path below the new name with the same node and touches nothing else; all trees, first-match lookup, no uniqueness assumption); remove_preserves_partial (remove without -files of a layer whose probed state is not 'not yet populated', from any world without the pretend switch, on normal return: every path at or below the layer directory has exactly the same lookup below <dir>~removed; proved by a relational Hoare invariant through removeLayerExportLinks and the rename, VCs by mvcgen); removed_not_overwritten (an existing <dir>~removed makes the command fail and nothing outside the two automatic export links changes, for every pretend/fault/crash setting); pristine_deleted (in state 'not yet populated' the directory is deleted outright) and its consequence remove_deletes_data_witness (+ _probed, through the model's own probe): a base layer with build/etc/data but without the seven FHS directories loses the file and no ~removed exists - the property as stated is violated in that region (recorded finding). The model is tied to the Go code by differential scenario runs with random populations of build/upper/packages/generated/other; the oracle judges the implementation's own before/after trees.",
+    "text": "Lean theorems over the file-system model and the command model (the code after fix 5e260eb): rename_preserves / rename_preserves_others (os.Rename of a tree moves every entry at or below the old name to the same relative path below the new name with the same node and touches nothing else; all trees, first-match lookup, no uniqueness assumption); remove_keeps_user_data_partial (remove without -files of a layer in ANY probed state, from any world without the pretend switch, on normal return: every entry at or below the layer directory is found with the same node at the same relative path below <dir>~removed, or the directory was deleted outright and then the probed state was 'not yet populated' and the entry is a directory, the layerconfig or the base layer's root/.bashrc; relational Hoare invariant through removeLayerExportLinks, holdsOnlyOwnFiles and the rename/RemoveAll, VCs by mvcgen); remove_renames_unless_pristine_partial; deleted_only_if_pristine; removed_never_overwritten and removed_subtree_never_overwritten (for every probed state, every pretend/fault/crash setting and every exit, nothing at or below an existing <dir>~removed changes); removed_not_overwritten (unless pristine the command fails and nothing outside the export links changes); remove_files_deletes; fixed_witness (the world on which the unrepaired code lost build/etc/data - base layer probed 'not yet populated' through the model's own probe, exWorld_probed_complete - now keeps the file below ~removed). The model is tied to the Go code by differential scenario runs with random populations of build/upper/packages/generated/other; the oracle judges the implementation's own before/after trees.",
     "design_ref": "§4 C09",
-    "note": "Partial: the preservation theorem needs state != 'not yet populated'; for that state the negation is proved on a concrete witness and reproduced with the real code (finding remove-deletes-unpopulated-layer-with-data). Trusted: Lean kernel, the environment model Fs (no symlinked intermediate directories, atomic rename), the correspondence harness. The per-path hypothesis about the automatic export links is explicit in the theorem statements.",
-    "technique": "Lean 4 proof (list lemmas for the tree model; relational Hoare invariant via Std.Do/mvcgen over removeLayer) + concrete counter-witness by kernel evaluation + differential correspondence",
+    "note": "The `_partial` suffix of the preservation theorems refers only to the explicit per-path side condition about the two automatic export links (they lie outside the layer directory unless the export directory is configured inside it). Trusted: Lean kernel, the environment model Fs (no symlinked intermediate directories, atomic rename), the correspondence harness. The per-path hypothesis about the automatic export links is explicit in the theorem statements.",
+    "technique": "Lean 4 proof (list lemmas for the tree model; relational Hoare invariant via Std.Do/mvcgen over removeLayer) + concrete witnesses by kernel evaluation + differential correspondence",
 }
